@@ -474,6 +474,6 @@ package collect
 //@   loop 1 invariant[workers-are-told-only-after-the-registry-is-cleared] clearedN(f) > old(clearedN(f))
 //@   modifies all(clearedN), all(sentN)
 
-// ---- C36 (no goroutine left running): every goroutine a method of the collector starts is announced, in the
-// statement before the go statement, to one of the wait groups Stop waits for (see the waitedN log on Stop).
+// ---- C36 (no goroutine left running): every goroutine a method of the collector starts is announced (an Add before
+// the go statement, same or enclosing block) to one of the wait groups Stop waits for (see the waitedN log on Stop).
 //@ gotracked collect.InMemCollector props C36 wait: workersWG, sendTracesWG, monitorWG
